@@ -715,7 +715,17 @@ void get_argspec_string(struct uftrace_task_reader *task, char *args, size_t len
 				 * gcc puts "<lambda" to anonymous lambda
 				 * but let's ignore to make it same as clang.
 				 */
-				if (strcmp(spec->type_name, "<lambda")) {
+				if (!strcmp(spec->type_name, "<lambda")) {
+					/* nothing */
+				}
+				else if (needs_json) {
+					/* the name goes into a JSON string: escape it like a function name */
+					char *p = spec->type_name;
+
+					while (*p)
+						print_json_escaped_char(&args, &len, *p++);
+				}
+				else {
 					print_args(&args, &len, "%s%s%s", color_struct,
 						   spec->type_name, color_reset);
 				}
